@@ -210,7 +210,7 @@ theorem readAll_cons (cfg : Cfg) (rd : Read) (rest : List Read) (s : State) :
     readAll cfg (rd :: rest) s = readAll cfg rest (readOne cfg s rd) := rfl
 
 theorem quietTo_refl {cfg : Cfg} {s : State} (t : Top cfg s) (j : J s) : QuietTo cfg s s :=
-  ⟨Nest.refl s, t, j, Quiet.refl _ s⟩
+  ⟨Nest.refl s, t, j, Quiet.refl _ s, fun _ => Quiet.refl _ s⟩
 
 section loop
 variable {cfg : Cfg} (ok : CfgOK cfg) (hfuel : cfg.fuel = 0) (hperm : OrdPerm cfg)
@@ -333,7 +333,7 @@ def envA (a : A) (r : Round) : A :=
 theorem sim_env {cfg : Cfg} {a : A} {s : State} (hs : Sim cfg a s) (r : Round) : Sim cfg (envA a r) (envStep s r) := by
   unfold envStep envA
   exact ⟨hs.uids, hs.nacc, by show _ = _; rw [hs.nacc, hs.fail], hs.buf, hs.live, hs.mods, hs.w, hs.logIn, hs.logOut,
-    hs.logConn, hs.logNodup, hs.logBound⟩
+    hs.logConn, hs.logNodup, hs.logBound, hs.idxIn, hs.idxPos⟩
 
 /-- the connections the Spec considers alive are the table entries -/
 theorem liveList_contains {cfg : Cfg} {a : A} {s : State} (hs : Sim cfg a s) (u : Nat) (hu : u ≠ 0) :
@@ -416,7 +416,12 @@ theorem sim_accept {cfg : Cfg} {a : A} {s : State} (hs : Sim cfg a s) (wA wM : L
     · simp only [hv, if_false]
   refine ⟨?_, by show a.nAccepted + 1 = s.nextUid + 1; rw [hn], hs.fail, hs.buf, fun v hv => ?_, fun v am m h1 h2 => ?_,
     fun v hl => ?_, fun v m h1 h2 => ?_, fun v m h1 h2 => ?_, fun v m h1 h2 => ?_, hs.logNodup,
-    fun u hu => Nat.le_succ_of_le (hs.logBound u hu)⟩
+    fun u hu => Nat.le_succ_of_le (hs.logBound u hu), fun v m t h1 h2 => ?_, hs.idxPos⟩
+  rotate_right
+  · rw [hfindS] at h1
+    split at h1
+    · cases h1; cases h2
+    · exact hs.idxIn v m t h1 h2
   · show (a.mods ++ [({ uid := a.nAccepted + 1 } : AMod)]).map (·.uid) = (List.range (a.nAccepted + 1)).map (· + 1)
     rw [List.map_append, hs.uids, List.range_succ, List.map_append]; rfl
   · rw [hliveA, hfindS, hn]; split
@@ -452,7 +457,8 @@ theorem sim_accept {cfg : Cfg} {a : A} {s : State} (hs : Sim cfg a s) (wA wM : L
 /-- the writable set is sampled again -/
 theorem sim_setW {cfg : Cfg} {a : A} {s : State} (hs : Sim cfg a s) (wA wM : List Nat)
     (hw : ∀ v, (a.live v).isSome → (v ∈ wA ↔ v ∈ wM)) : Sim cfg { a with w := wA } { s with wlist := wM } :=
-  ⟨hs.uids, hs.nacc, hs.fail, hs.buf, hs.live, hs.mods, hw, hs.logIn, hs.logOut, hs.logConn, hs.logNodup, hs.logBound⟩
+  ⟨hs.uids, hs.nacc, hs.fail, hs.buf, hs.live, hs.mods, hw, hs.logIn, hs.logOut, hs.logConn, hs.logNodup, hs.logBound,
+   hs.idxIn, hs.idxPos⟩
 
 /-! ## one round, both sides in the same shape -/
 
@@ -700,7 +706,8 @@ theorem round_ok {a : A} {s : State} (inv : Inv cfg a s) (r : Round) (hwf : Roun
   have tR := top_readAll ok hfuel reads tP
   have jR : J (readAll cfg reads sP) := readAll_J cfg reads jP
   have q : QuietTo cfg (readAll cfg reads sP) (ticks cfg (readAll cfg reads sP)) :=
-    ⟨ticks_nest cfg _, top_ticks ok hfuel tR, ticks_J cfg jR, qa_ticks cfg _⟩
+    ⟨ticks_nest cfg _, top_ticks ok hfuel tR, ticks_J cfg jR, qa_ticks cfg _,
+      fun k => quiet_of_QE (ticks_QE cfg (tag_cp cfg k) (ctl_cp k) _)⟩
   obtain ⟨E1, hE1⟩ := readAll_out ok hfuel reads sP tP
   obtain ⟨E2, hE2, _, _⟩ := q.nest.ext
   have hE : (ticks cfg (readAll cfg reads sP)).out = sP.out ++ (E1 ++ E2) := by rw [hE2, hE1, List.append_assoc]
@@ -786,7 +793,7 @@ theorem init_sim : Inv cfg ({} : A) (init cfg) := by
   have n : Nest ({ mods := [{ uid := 0, name := "message_manager".toList.map (·.toNat), pid := cfg.mmPid, connected := true }] } : State)
       (init cfg) := logTop_nest cfg 20 _
   -- every table entry of `init` is the manager's own
-  have only0 : ∀ u m, (init cfg).find u = some m → u = 0 ∧ m.isLogger = false := by
+  have only0 : ∀ u m, (init cfg).find u = some m → u = 0 ∧ m.isLogger = false ∧ m.subs = [] := by
     intro u m hm
     obtain ⟨m0, hm0, hcore⟩ := n.surv u m hm (t.aopen u m hm)
     simp only [State.find, List.find?_cons, List.find?_nil] at hm0
@@ -794,11 +801,12 @@ theorem init_sim : Inv cfg ({} : A) (init cfg) := by
     · rename_i hu
       cases hm0
       exact ⟨by have : (0 : Nat) = u := by simpa using hu
-                exact this.symm, (core_fields hcore).2.2.1⟩
+                exact this.symm, (core_fields hcore).2.2.1, core_subs hcore⟩
     · cases hm0
   have nolog : (init cfg).loggers = [] := List.sublist_nil.mp n.logSub
   refine ⟨rfl, n.nuid.symm, n.fail.symm, n.buf.symm, fun u hu => ?_, fun u am m h1 _ => ?_, fun u hl => ?_, fun u m h1 h2 => ?_,
-    fun u m h1 _ => ?_, fun u m h1 h2 => ?_, by rw [nolog]; exact List.nodup_nil, fun u hu => ?_⟩
+    fun u m h1 _ => ?_, fun u m h1 h2 => ?_, by rw [nolog]; exact List.nodup_nil, fun u hu => ?_,
+    fun u m t h1 h2 => ?_, fun t u hu => ?_⟩
   · constructor
     · intro h; cases h
     · intro h
@@ -806,10 +814,13 @@ theorem init_sim : Inv cfg ({} : A) (init cfg) := by
       exact absurd (only0 u m hm).1 hu
   · cases h1
   · cases hl
-  · rw [(only0 u m h1).2] at h2; cases h2
+  · rw [(only0 u m h1).2.1] at h2; cases h2
   · rw [nolog] at h1; cases h1
-  · rw [(only0 u m h1).2] at h2; cases h2
+  · rw [(only0 u m h1).2.1] at h2; cases h2
   · rw [nolog] at hu; cases hu
+  · rw [(only0 u m h1).2.2] at h2; cases h2
+  · have := n.idxSub t u hu
+    simp [idxGet] at this
 
 include hperm
 
